@@ -233,10 +233,17 @@ func driveLruRetention(opt *Options) error {
 		}
 		deleted := 0
 		panicNext := false
+		exitKind := 0
 		onDel := func(k string, v int) {
 			deleted++
 			if panicNext {
 				panicNext = false
+				switch exitKind % 3 {
+				case 1:
+					runtime.Goexit() // what t.Fatal / t.FailNow do inside a callback
+				case 2:
+					panic(nil)
+				}
 				panic("delete callback failed")
 			}
 		}
@@ -285,8 +292,17 @@ func driveLruRetention(opt *Options) error {
 			default:
 				// now and then the user's delete callback panics inside Clear and the caller recovers:
 				// the cache must not keep anything pinned because of that
+				// (the callback leaves by a panic with a value, by runtime.Goexit, or by panic(nil): Clear runs in a
+				// goroutine of its own, which a Goexit ends)
 				panicNext = rnd.Intn(3) == 0
-				callPanics(clear)
+				exitKind++
+				cdone := make(chan struct{})
+				go func() {
+					defer close(cdone)
+					defer func() { recover() }()
+					clear()
+				}()
+				<-cdone
 				panicNext = false
 				op = "Clear"
 			}
